@@ -348,7 +348,9 @@ func c07ReconnectPaced(c *Ctx, fns []*ssa.Function) {
 			}
 		}
 	}
-	paces := func(in ssa.Instruction) bool {
+	pacingHelper := map[*ssa.Function]bool{}
+	var paces func(in ssa.Instruction) bool
+	paces = func(in ssa.Instruction) bool {
 		switch x := in.(type) {
 		case *ssa.Select:
 			for _, st := range x.States {
@@ -370,8 +372,28 @@ func c07ReconnectPaced(c *Ctx, fns []*ssa.Function) {
 			case "time.Sleep", "(*bufio.Scanner).Scan", "(*bufio.Reader).ReadString", "(*bufio.Reader).ReadBytes", "(*bufio.Reader).ReadLine", "(*encoding/json.Decoder).Decode":
 				return true
 			}
+			// a helper that waits on every one of its paths (wait(ctx, d))
+			if sc := ir.StaticCallee(x); sc != nil && c.P.IsLib(sc) && pacingHelper[sc] {
+				return true
+			}
 		}
 		return false
+	}
+	for iter := 0; iter < 2; iter++ {
+		for _, fn := range c.P.LibFns {
+			if pacingHelper[fn] || len(fn.Blocks) == 0 {
+				continue
+			}
+			has := false
+			ir.EachInstr(fn, func(_ *ssa.BasicBlock, _ int, in ssa.Instruction) {
+				if paces(in) {
+					has = true
+				}
+			})
+			if has && flow.ExitsAvoiding(fn, nil, paces, false) == nil {
+				pacingHelper[fn] = true
+			}
+		}
 	}
 	n := 0
 	for _, fn := range fns {
